@@ -836,7 +836,12 @@ def apply_fn_contract(toks, item, log):
             n = int(where.split(":")[1])
             if n > len(loops):
                 raise LostAnchor("loop %d not found in %s" % (n, item["selector"]))
-            inserts.append((loops[n - 1][2], block))
+            # a loop body may end in an expression statement without ';' (value ()): terminate it first
+            k = loops[n - 1][2] - 1
+            while k > 0 and toks[k].kind == "ws":
+                k -= 1
+            sep = "" if toks[k].text in (";", "}", "{") else ";"
+            inserts.append((loops[n - 1][2], sep + block))
         elif where.startswith("after_loop:"):
             n = int(where.split(":")[1])
             if n > len(loops):
